@@ -6,6 +6,7 @@ package main
 // for the line protocol.
 
 import (
+	"context"
 	"encoding/json"
 	"errors"
 	"fmt"
@@ -77,16 +78,27 @@ type retShapeDef struct {
 type retSess struct {
 	cur     []interface{}
 	nextRan bool
+	// pre = cx: cancels the request's context; called by the returning handler while it computes its results,
+	// i.e. the context becomes done WHILE the handler runs, before it returns
+	cancel func()
 }
 
-func (s *retSess) str(i int) string { return s.cur[i].(string) }
-func (s *retSess) byt(i int) []byte { return s.cur[i].([]byte) }
-func (s *retSess) num(i int) int    { return s.cur[i].(int) }
+func (s *retSess) touch() {
+	if s.cancel != nil {
+		s.cancel()
+	}
+}
+
+func (s *retSess) str(i int) string { s.touch(); return s.cur[i].(string) }
+func (s *retSess) byt(i int) []byte { s.touch(); return s.cur[i].([]byte) }
+func (s *retSess) num(i int) int    { s.touch(); return s.cur[i].(int) }
 func (s *retSess) err(i int) error {
+	s.touch()
 	e, _ := s.cur[i].(error)
 	return e
 }
 func (s *retSess) ps(i int) *string {
+	s.touch()
 	p, _ := s.cur[i].(*string)
 	return p
 }
@@ -309,7 +321,17 @@ func execRet(args []string, lines [][]string) []string {
 			panic("ret: bad custom")
 		}
 	}
-	if pre != "-" {
+	if pre == "cx" {
+		// a timeout/abort middleware: the request runs under a derived context which is cancelled while the
+		// returning handler is still running; what that handler returns is still rendered (and then the chain stops)
+		f.Use(func(c flamego.Context) {
+			ctx, cancel := context.WithCancel(c.Request().Context())
+			c.Request().Request = c.Request().Request.WithContext(ctx)
+			sess.cancel = cancel
+			defer func() { sess.cancel = nil; cancel() }()
+			c.Next()
+		})
+	} else if pre != "-" {
 		p := strings.Split(pre, ":")
 		switch p[0] {
 		case "wh":
@@ -330,7 +352,7 @@ func execRet(args []string, lines [][]string) []string {
 	// after the first handler that returns once something is written, so the returning handler
 	// has to be the one the pre-writing middleware's Next() starts
 	lead := []flamego.Handler{}
-	if pre == "-" {
+	if pre == "-" || pre == "cx" {
 		lead = append(lead, noop)
 	}
 	switch pos {
@@ -641,6 +663,8 @@ func genRet(r *rand.Rand, tier string, emit Emit) {
 			} else {
 				pre = "w:" + hx(retBody(r))
 			}
+		} else if r.Intn(8) == 0 && !map[string]bool{"v": true, "pb": true, "pps": true, "any": true, "i64": true, "bool": true, "ce": true}[shape] {
+			pre = "cx" // (only for shapes whose handler reads its values through the accessors that cancel)
 		}
 		emit("NEW ret %s %s %s %s %s", methods[r.Intn(len(methods))], retPos[r.Intn(len(retPos))], shape, custom, pre)
 		st := retShapes[shape].static
